@@ -48,6 +48,8 @@ type Ctx struct {
 	Deadline    time.Time `json:"-"`
 	Tier        string    `json:"-"`
 	sub         *int64
+	// Cut: a unit stopped early because the tier deadline passed (the run is then not exhaustive)
+	Cut bool `json:"cut"`
 	// where this worker is (recorded into every violation so that a violation that depends on
 	// what the process did before can be replayed as a sequence of units)
 	curUnit, shard, nshards int
@@ -211,7 +213,7 @@ func WorkerMain(args []string) int {
 	ctx.shard, ctx.nshards = shard, nshards
 	lastFlush := time.Now()
 	flush := func(next int, done, deadline bool) {
-		enc.Encode(flushMsg{Ctx: ctx, Next: next, Done: done, Deadline: deadline})
+		enc.Encode(flushMsg{Ctx: ctx, Next: next, Done: done, Deadline: deadline || ctx.Cut})
 		out.Flush()
 		dlKeep, tierKeep := ctx.Deadline, ctx.Tier
 		ctx = newCtx()
@@ -584,6 +586,7 @@ func finish(ck *Check, tier string, seed, nUnits, nWorkers int, startT time.Time
 
 	exit := 0
 	reported, known, unconfirmed := 0, 0, 0
+	seqTried := 0 // sequence replays re-run a whole shard: a few are enough
 	var lines []string
 	for _, sig := range sigs {
 		cands := tot.bestPerSig[sig]
@@ -631,7 +634,8 @@ func finish(ck *Check, tier string, seed, nUnits, nWorkers int, startT time.Time
 				// the case alone does not reproduce in a fresh process: it may depend on what the
 				// worker did before it. Re-run the worker's units up to that unit, twice, in fresh
 				// processes; if the same signature shows up both times, that sequence is the replay.
-				if _, has := v.Case["_unit"]; has {
+				if _, has := v.Case["_unit"]; has && seqTried < 2 {
+					seqTried++
 					v.Case["sequence_replay"] = true
 					b, _ = json.MarshalIndent(v.Case, "", " ")
 					os.WriteFile(file, b, 0644)
